@@ -187,6 +187,12 @@ Fixpoint no_bad (m2m : bool) (s : cstate) (evs : list cev) : bool :=
 Definition cstep (m2m : bool) (s : cstate) (e : cev) : cstate := if bad_event m2m s e then cfail s else cstep0 m2m s e.
 Definition crun (m2m : bool) (s : cstate) (evs : list cev) : cstate := fold_left (cstep m2m) evs s.
 
+(* Set.copy sets the read bit of the back-reference on every member `if not reverse.is_collection and reverse.pk_offset is None`:
+   a back-reference that is a member of the PRIMARY key is exempt (it cannot change without the item becoming another object);
+   one that is a member of a secondary unique key (unique=True, composite_key) is NOT exempt.  Iterating such an exempt
+   collection is the observation without pins. *)
+Definition copy_event (ref_in_pk : bool) (dbitems : list nat) : cev := if ref_in_pk then CObsLen dbitems else CObsCopy dbitems.
+
 Fixpoint all_same (l : list (list nat)) : Prop :=
   match l with
   | x :: ((y :: _) as r) => x = y /\ all_same r
@@ -224,6 +230,17 @@ Definition coutcome0 (m2m : bool) (evs : list cev) : bool * list (list nat) :=
   let s := crun0 m2m cinit evs in (cfailed s, map sort (rev (cobs s))).
 Definition coutcome (m2m : bool) (evs : list cev) : bool * list (list nat) :=
   let s := crun m2m cinit evs in (cfailed s, map sort (rev (cobs s))).
+(* after every observation that did not fail: the members whose back-reference carries a read bit *)
+Fixpoint cpins (m2m : bool) (s : cstate) (evs : list cev) : list (list nat) :=
+  match evs with
+  | [] => []
+  | e :: r =>
+      let s' := cstep m2m s e in
+      (match e with
+       | CObsCopy _ | CObsLen _ => if cfailed s' then [] else [sort (filter (fun i => mem i (pinned s')) (items s'))]
+       | _ => []
+       end) ++ cpins m2m s' r
+  end.
 Definition coutcome_eqb (x y : bool * list (list nat)) : bool := Bool.eqb (fst x) (fst y) && list_eqb (list_eqb Nat.eqb) (snd x) (snd y).
 
 Fixpoint failing_from (i : nat) (l : list bool) : list nat :=
